@@ -259,6 +259,7 @@ def make_judge(acc, case, fx, workers, mode, init):
             nviol[0] += 1
 
     judge.examples = []
+    judge.nviol = nviol
     return judge
 
 
@@ -279,7 +280,8 @@ def _explore(acc, case, fx, workers, mode, init, judge):
         judge(ex, None, list(ex.choices))
         return
     t0 = time.time()
-    st = sched.explore_states(fx.make(workers, mode), judge, max_states=150000)
+    # once a worker set has produced violations there is nothing more to decide for it: stop that exploration early
+    st = sched.explore_states(fx.make(workers, mode), judge, max_states=150000, should_stop=lambda: judge.nviol[0] >= 5)
     acc.states.update(range(0))  # (state hashes are kept inside the explorer; counts are added below)
     acc.count("states_" + "_".join(w[:4] for w in workers) + f"_{mode}_{init}", st["states"])
     acc.count("explorer_states", st["states"])
